@@ -49,6 +49,12 @@ M = [
  ('bio-seq/src/lib.rs', "        self.comp();\n        self.rev();", "        self.rev();", 'T', ['lib.wrappers']),
  ('bio-seq/src/lib.rs', "        let mut owned = self.to_owned();\n        owned.unmask();", "        let mut owned = self.to_owned();\n        owned.mask();", 'T', ['lib.wrappers']),
  ('bio-seq/src/kmer/integral64.rs', "        Self::BaN::new([self])\n    }\n\n    fn from_bitslice(bs: &Bs) -> Self {\n        debug_assert!(", "        Self::BaN::new([self >> 1])\n    }\n\n    fn from_bitslice(bs: &Bs) -> Self {\n        debug_assert!(", 'T', ['kmer.storage']),
+
+ ('bio-seq/src/translation.rs', "                inverse_table.insert(*amino, None);", "                inverse_table.insert(*amino, Some(codon.clone()));", 'T', ['translation.codontable']),
+ ('bio-seq/src/translation.rs', "            if inverse_table.contains_key(amino) {", "            if !inverse_table.contains_key(amino) {", 'T', ['translation.codontable']),
+ ('bio-seq/src/translation.rs', "                None => Err(TranslationError::AmbiguousCodon(amino)),", "                None => Err(TranslationError::InvalidAmino(amino)),", 'T', ['translation.lookup']),
+ ('bio-seq/src/translation.rs', "            Err(TranslationError::InvalidAmino(amino))", "            Err(TranslationError::AmbiguousCodon(amino))", 'T', ['translation.lookup']),
+ ('bio-seq/src/translation.rs', ".ok_or_else(|| TranslationError::InvalidCodon(codon.into()))", ".ok_or_else(|| TranslationError::AmbiguousTranslation(codon.into()))", 'T', ['translation.try_to_amino']),
 ]
 res = []
 ONLY = [int(x) for x in os.environ.get('ONLY', '').split(',') if x]
